@@ -228,6 +228,15 @@ class Prop:
         c['ops'] = [tuple(o) for o in j['ops']]
         return c
 
+    def corpus_cases(self):
+        d = os.path.join(os.path.dirname(os.path.dirname(os.path.abspath(__file__))), 'corpus', 'C01')
+        out = []
+        if os.path.isdir(d):
+            for fn in sorted(os.listdir(d)):
+                if fn.endswith('.json'):
+                    out.append(self.case_from_json(json.load(open(os.path.join(d, fn)))['case']))
+        return out
+
     # ---- generation
     def gen_cfg(self, rng):
         nsrc = rng.choice([2, 3])
@@ -302,7 +311,12 @@ class Prop:
     def oracle(self, c, obs):
         if obs == [-1]:
             return 'panic in the export path'
+        established = False
         for k, o in enumerate(obs):
+            if o[0] == 4:
+                established = True
+            if not established:
+                continue            # the property speaks about established neighbours
             if o[0] == 3:
                 chk, pending_empty = o[4], True
             elif o[0] == 6:
@@ -343,3 +357,30 @@ class Prop:
             if k in kinds: tags.append('has_' + k)
         if c['ops'].count(('register',)) > 1: tags.append('re_register')
         return tags
+
+    # ---- shrinking: drop operations while the implementation still fails the oracle
+    def shrink(self, case, why, rounds=60):
+        cur = case
+        for _ in range(rounds):
+            cands = []
+            ops = cur['ops']
+            for i in range(len(ops)):
+                cands.append(dict(cfg=cur['cfg'], ops=ops[:i] + ops[i + 1:]))
+            # simplify the configuration as well
+            g = cur['cfg']
+            if g['policy']: cands.append(dict(cfg=dict(g, policy=False), ops=ops))
+            if g['cluster']: cands.append(dict(cfg=dict(g, cluster=False), ops=ops))
+            if not cands:
+                break
+            obs, err = self.run_impl(cands, 'quick')
+            if obs is None:
+                break
+            nxt = None
+            for c, o in zip(cands, obs):
+                if self.oracle(c, o):
+                    nxt = c
+                    break
+            if nxt is None:
+                break
+            cur = nxt
+        return cur
